@@ -232,7 +232,7 @@ META = {
              'collected array, that each sub-block request is a whole number W of windows at the start of an observation and '
              'W-1 afterwards (stated on the request length, whatever locals compute it) and therefore yields (W-1)*num_taps '
              'spectra matching the bytes written, that every stream request binds a fresh voltage buffer (the array source '
-             'keeps views of the previous one), and that all caches are reset before the first block. Byte-exact partition '
+             'keeps views of the previous one), and that all caches are reset before the first block. The comparison of the delayed background slices takes the class invariant delay_i <= max_delay (established on the constructor by C15) as a stated precondition. Byte-exact partition '
              'invariance (tiling of the block by sub-blocks for all num_subblocks) is not decided.',
     'note': 'Real/integer arithmetic; the PFB row count floor(len/(T*B))-1 windows is taken from the front-end definition checked '
             'under C08; duck-typed quantize/channelize calls are opaque.',
